@@ -1928,7 +1928,7 @@ class SigTables:
             ho, hfd = self.find_method(key, hook)
             if hfd is not None:
                 return {p: trans(fd) for p, _, _ in ps}        # attribute access is intercepted: nothing is known to be verbatim
-        if self.class_attr(key, '__slots__')[0] or self.external_bases(key) and False:
+        if self.class_attr(key, '__slots__')[0]:
             return {p: trans(fd) for p, _, _ in ps}
         top = {id(s): i for i, s in enumerate(fd.body)}
         writes = self.writes(fd)
